@@ -806,7 +806,17 @@ fn main() {
             if let Some(o) = k.strip_prefix("history:") {
                 rt.block_on(run_histories(o.parse().unwrap(), *b, hist_depth(args.tier), &wd.path().join("w"), &logs_dir))
             } else if k.starts_with("pairing") {
-                rt.block_on(run_pairing(*b, k == "pairing_inverted", &wd.path().join("w"), &logs_dir))
+                // the protocol has no timeout of its own: a run that does
+                // not finish within the horizon is repeated (twice at most)
+                let mut v = Value::Null;
+                for _attempt in 0..3 {
+                    v = rt.block_on(run_pairing(*b, k == "pairing_inverted", &wd.path().join("w"), &logs_dir));
+                    let stuck = v.get("error").and_then(|e| e.as_str()).map(|e| e.contains("did not finish")).unwrap_or(false);
+                    if !stuck {
+                        break;
+                    }
+                }
+                v
             } else {
                 rt.block_on(run_kind(k, *b, &wd.path().join("w"), &logs_dir))
             }
